@@ -220,7 +220,7 @@ def ctl_ok(input, oshape):
 """
 
 
-def _empty_sites(fnode, is_empty):
+def _empty_sites(fnode, is_empty, resolve=None):
     """(call node, verdict, detail) for each empty/empty_like call in a function body"""
     parents = {}
     for n in ast.walk(fnode):
@@ -263,8 +263,50 @@ def _empty_sites(fnode, is_empty):
                             full = True
             if isinstance(m, ast.Call) and unparse(m.func).split(".")[-1] == "copyto" and m.args and isinstance(m.args[0], ast.Name) and m.args[0].id == name:
                 full = True
+            if isinstance(m, ast.Call) and _writes_all_of(m, {name}, resolve, 0):
+                full = True
         out.append((n, "full" if full else "partial", "bound to `%s`" % name))
     return out
+
+
+def _writes_all_of(call, names, resolve, depth):
+    """does this call overwrite every element of the array held in one of `names`?  `ufunc(..., out=name)` does; so does a repository
+    helper that does this to the parameter `name` is passed for (followed through `x = p if q is None else q` style aliases, depth <= 2)"""
+    for k in call.keywords:
+        if k.arg == "out" and isinstance(k.value, ast.Name) and k.value.id in names and isinstance(call.func, ast.Attribute) \
+                and unparse(call.func).split(".")[0] in ("np", "xp", "numpy", "cp"):
+            return True
+    fn = resolve(call) if resolve is not None and depth < 2 else None
+    if fn is None:
+        return False
+    ps = list(fn.params)
+    passed = set()
+    for p_, a_ in zip(ps, call.args):
+        if isinstance(a_, ast.Name) and a_.id in names:
+            passed.add(p_)
+    for k in call.keywords:
+        if k.arg in ps and isinstance(k.value, ast.Name) and k.value.id in names:
+            passed.add(k.arg)
+    if not passed:
+        return False
+    alias = set(passed)
+    for _ in range(3):
+        for n in ast.walk(fn.node):
+            if isinstance(n, ast.Assign) and len(n.targets) == 1 and isinstance(n.targets[0], ast.Name):
+                v = n.value
+                cands = [v] if not isinstance(v, ast.IfExp) else [v.body, v.orelse]
+                if any(isinstance(c, ast.Name) and c.id in alias for c in cands):
+                    alias.add(n.targets[0].id)
+    for m in ast.walk(fn.node):
+        if isinstance(m, ast.Call) and m is not call and _writes_all_of(m, alias, resolve, depth + 1):
+            return True
+        if isinstance(m, ast.Assign):
+            for t in m.targets:
+                if isinstance(t, ast.Subscript) and isinstance(t.value, ast.Name) and t.value.id in alias:
+                    sl = t.slice
+                    if (isinstance(sl, ast.Constant) and sl.value is Ellipsis) or (isinstance(sl, ast.Slice) and sl.lower is None and sl.upper is None and sl.step is None):
+                        return True
+    return False
 
 
 def _m5(run, M):
@@ -276,7 +318,10 @@ def _m5(run, M):
         def is_empty(c, f=f):
             tgt = M.resolve_call(f, c)
             return tgt[0] == "ext" and tgt[1].split(".")[-1] in ("empty", "empty_like") and tgt[1].startswith("numpy")
-        own = [x for x in _empty_sites(f.node, is_empty) if not any(x[0] in list(ast.walk(g.node)) for g in M.funcs.values() if g.parent is f)]
+        def resolve(c, f=f):
+            tgt = M.resolve_call(f, c)
+            return tgt[1] if tgt[0] == "repo" else None
+        own = [x for x in _empty_sites(f.node, is_empty, resolve) if not any(x[0] in list(ast.walk(g.node)) for g in M.funcs.values() if g.parent is f)]
         for call, verdict, detail in own:
             n_sites += 1
             if verdict in ("shape-only", "full"):
